@@ -18,7 +18,10 @@ func corsCheck(p cors.Prop) checkFn {
 		if err := cors.Check(run, p, n); err != nil {
 			return err
 		}
-		return cors.CheckNonASCII(run, p.ID, sizes(run, 150, 3000))
+		if err := cors.CheckNonASCII(run, p.ID, sizes(run, 150, 3000)); err != nil {
+			return err
+		}
+		return cors.CheckConcurrent(run, p.ID, sizes(run, 120, 2400))
 	}
 }
 
